@@ -103,4 +103,23 @@ PROPS = {
         trusted=['Kani 0.68 / CBMC 6.11; bitflags 2.x is executed, not modelled',
                  'winnow hands each lifted closure only what its combinator admits (domain anchors checked present)'],
     ),
+    'C04': dict(
+        level='proof',
+        scope='string_escape / template_escape verified in place (loop invariants) against esc / tesc; lemma: for every user string s and '
+              'every continuation, the reader decodes `esc(s)"rest` to exactly s and stops at that quote; and the exact emitted text of '
+              'every interpolation site outside format strings is literal · esc(user) · literal: matcher patterns (both managers), '
+              'output file names, -pool, -xattr, -xattr-match (both arguments), the device path; generated names contain no user text.',
+        not_decided=['format strings: literal text, escapes, strftime selectors and %{xattr:NAME} go through <Vec<FormatElement>>::compile, '
+                     'literal() and snippet() (iterator chains; assumed contracts)',
+                     '`reads back as exactly two top-level forms` for the whole program (no reader specification of the full Scheme grammar)',
+                     'which characters a word or quoted string may contain (winnow combinators in prelude.rs)'],
+    ),
+    'C20': dict(
+        level='proof',
+        scope='CompiledExpression::scheme(&self, mdt) returns exactly render_text(self, esc(mdt)): the stored parts, unchanged, around one '
+              'string literal holding the escaped path — a pure function of (compiled expression, path), so equal paths give identical '
+              'programs and different paths differ only inside that literal, which reads back as the path (C04 lemma); io_map(&self) '
+              'returns a table equal to the stored one; both take &self over fields without interior mutability.',
+        not_decided=[],
+    ),
 }
